@@ -343,6 +343,11 @@ def classify(prop, mismatches):
 # ---------------------------------------------------------------- evidence + verdict
 
 def write_evidence(prop, tier, level, coverage, wall, violations, assumptions):
+    global EVID, REPLAY
+    if os.environ.get("VERIF_REPO"):
+        # development only: a run against another checkout (a seeded change in a scratch worktree) must not
+        # overwrite the evidence of /repo
+        EVID = os.path.join("/tmp", "verif-alt-evidence")
     os.makedirs(EVID, exist_ok=True)
     ev = {
         "property_id": prop, "tier": tier, "seed": seed(), "level": level,
